@@ -53,6 +53,28 @@ const (
 
 var maxTime = time.Date(9999, 12, 31, 23, 59, 59, 999, time.UTC)
 var minTime = time.Date(2000, 1, 1, 0, 0, 0, 0, time.UTC)
+
+// The deadline n units (time.Second or time.Millisecond) after now. A time.Duration holds at
+// most about 292 years, so now.Add(time.Duration(n) * unit) wraps for larger n and the key
+// would expire at once; the sum is formed on the unix clock instead. A deadline beyond the
+// largest one the store can hold (maxTime stands for "no deadline") becomes that largest one.
+func deadlineAfter(now time.Time, n int64, unit time.Duration) time.Time {
+	last := maxTime.Add(-time.Second)
+	var deadline time.Time
+	if unit == time.Second {
+		if n > last.Unix()-now.Unix() {
+			return last
+		}
+		deadline = time.Unix(now.Unix()+n, int64(now.Nanosecond()))
+	} else {
+		if n > last.UnixMilli()-now.UnixMilli() {
+			return last
+		}
+		sum := now.UnixMilli() + n
+		deadline = time.Unix(sum/1000, (sum%1000)*int64(time.Millisecond)+int64(now.Nanosecond())%int64(time.Millisecond))
+	}
+	return deadline
+}
 var wrongTypeError = respErrorString("WRONGTYPE Operation against a key holding the wrong kind of value")
 
 type (
@@ -1037,7 +1059,7 @@ func (dsc *dataStoreCommand) restore(keyName, serializedData string, ttl int64, 
 		if absttl {
 			expiration = time.UnixMilli(ttl)
 		} else {
-			expiration = time.Now().Add(time.Millisecond * time.Duration(ttl))
+			expiration = deadlineAfter(time.Now(), ttl, time.Millisecond)
 		}
 	} else {
 		expiration = maxTime
